@@ -9,6 +9,7 @@ import (
 	"errors"
 	"fmt"
 	"net/http"
+	"strconv"
 	"sync"
 	"sync/atomic"
 	"time"
@@ -30,11 +31,36 @@ import (
 
 const (
 	slotsPerEpoch  = 32
-	dutyEpoch      = 1000
-	dutySlot       = dutyEpoch*slotsPerEpoch + 7
 	committeeIndex = 3
 	invalidMarker  = 0xEE
+	maxCalls       = 3
 )
+
+// epoch is the duty epoch of the history: 1000, or 0 (where attestation data
+// can score exactly 0).
+func (c *Case) epoch() int64 {
+	if c.Epoch0 {
+		return 0
+	}
+	return 1000
+}
+
+// slot is the slot requested by call k of the history (all in one epoch).
+func (c *Case) slot(k int) int64 { return c.epoch()*slotsPerEpoch + 7 + int64(k) }
+
+// blockID is the block identifier requested by call k (block-based strategies).
+func (c *Case) blockID(k int) string { return strconv.FormatInt(c.slot(k), 10) }
+
+// callOfSlot / callOfBlock tell a double which request of the history it is answering.
+func (c *Case) callOfSlot(slot phase0.Slot) int { return int(int64(slot) - c.slot(0)) }
+
+func (c *Case) callOfBlock(id string) int {
+	v, err := strconv.ParseInt(id, 10, 64)
+	if err != nil {
+		return -1
+	}
+	return int(v - c.slot(0))
+}
 
 // ---------------------------------------------------------------------------
 // Observation of one node double.
@@ -46,50 +72,57 @@ type nodeObs struct {
 	Outcome string  // value | invalid | error | aborted | gaveup
 }
 
-// world is everything that belongs to one executed case.
+// world is everything that belongs to one executed history.
 type world struct {
 	c        *Case
-	t0       time.Time
+	steps    [][]Node
 	mu       sync.Mutex
-	obs      []nodeObs
+	t0       []time.Time // start of call k
+	obs      [][]nodeObs // [call][node]
 	inflight atomic.Int64
 }
 
-func (w *world) sinceMs() float64 { return float64(time.Since(w.t0)) / float64(time.Millisecond) }
+func (w *world) sinceMs(k int) float64 {
+	return float64(time.Since(w.t0[k])) / float64(time.Millisecond)
+}
 
-// node is the generic part of a node double: it sleeps as scripted and records
-// the instant at which it answers.
+// node is the generic part of a node double: it sleeps as scripted for the
+// request it is answering and records the instant at which it answers.
 type node struct {
 	w *world
 	i int
 }
 
-func (d *node) spec() Node { return d.w.c.Nodes[d.i] }
+func (d *node) spec(k int) Node { return d.w.steps[k][d.i] }
 
-func (d *node) finish(outcome string) {
+func (d *node) finish(k int, outcome string) {
 	d.w.mu.Lock()
-	d.w.obs[d.i].Done = true
-	d.w.obs[d.i].AnsMs = d.w.sinceMs()
-	d.w.obs[d.i].Outcome = outcome
+	d.w.obs[k][d.i].Done = true
+	d.w.obs[k][d.i].AnsMs = d.w.sinceMs(k)
+	d.w.obs[k][d.i].Outcome = outcome
 	d.w.mu.Unlock()
 	d.w.inflight.Add(-1)
 }
 
-// wait sleeps for the scripted latency.  It returns a non-nil error when the
-// double has to answer with that error (context abort, or a hanging node that
-// does not respect the context and finally gives up).  On a nil return the
-// caller delivers the scripted value or error and calls finish itself.
-func (d *node) wait(ctx context.Context) error {
+// wait sleeps for the latency scripted for call k.  It returns a non-nil error
+// when the double has to answer with that error (context abort, or a hanging
+// node that does not respect the context and finally gives up).  On a nil
+// return the caller delivers the scripted value and calls deliver.
+func (d *node) wait(ctx context.Context, k int) error {
+	if k < 0 || k >= len(d.w.steps) {
+		return errors.New("request is not part of the scripted history")
+	}
 	d.w.inflight.Add(1)
 	d.w.mu.Lock()
-	d.w.obs[d.i].Called = true
+	d.w.obs[k][d.i].Called = true
+	t0 := d.w.t0[k]
 	d.w.mu.Unlock()
-	n := d.spec()
+	n := d.spec(k)
 	lat := time.Duration(n.LatMs) * time.Millisecond
 	if n.Kind == "hang" {
 		lat = time.Duration(d.w.c.TimeoutMs+giveUpAfterMs) * time.Millisecond
 	}
-	timer := time.NewTimer(time.Until(d.w.t0.Add(lat)))
+	timer := time.NewTimer(time.Until(t0.Add(lat)))
 	defer timer.Stop()
 	if n.IgnoreCtx {
 		<-timer.C
@@ -97,16 +130,16 @@ func (d *node) wait(ctx context.Context) error {
 		select {
 		case <-timer.C:
 		case <-ctx.Done():
-			d.finish("aborted")
+			d.finish(k, "aborted")
 			return fmt.Errorf("failed to call GET endpoint: %w", ctx.Err())
 		}
 	}
 	if n.Kind == "hang" {
-		d.finish("gaveup")
+		d.finish(k, "gaveup")
 		return errors.New("node gave up")
 	}
 	if n.Kind == "error" {
-		d.finish("error")
+		d.finish(k, "error")
 		switch n.Err {
 		case "api404":
 			return &api.Error{Method: http.MethodGet, Endpoint: "/scripted", StatusCode: http.StatusNotFound, Data: []byte("not found")}
@@ -120,18 +153,19 @@ func (d *node) wait(ctx context.Context) error {
 	return nil
 }
 
-func (d *node) deliver() {
-	if d.spec().Kind == "invalid" {
-		d.finish("invalid")
+func (d *node) deliver(k int) {
+	if d.spec(k).Kind == "invalid" {
+		d.finish(k, "invalid")
 	} else {
-		d.finish("value")
+		d.finish(k, "value")
 	}
 }
 
 // ---------------------------------------------------------------------------
-// Values.  Pool value i carries tag i+1 in a field that has no influence on the
-// score, so that the oracle can recognise what was returned from its content
-// (attestationdata/majority returns a copy, not the pointer it was given).
+// Values.  Pool value i carries tag i+1, and the index k of the request it
+// answers, in fields that have no influence on the score, so that the oracle
+// can recognise what was returned from its content (attestationdata/majority
+// returns a copy, not the pointer it was given).
 
 func tagRoot(tag byte, kind byte) phase0.Root {
 	var r phase0.Root
@@ -140,44 +174,68 @@ func tagRoot(tag byte, kind byte) phase0.Root {
 	return r
 }
 
-// headRoot is the block root that pool value i votes for / reports.
+// headRoot is the block root that pool value i votes for (attestation data).
 func headRoot(i int) phase0.Root { return tagRoot(byte(i+1), 0xc7) }
 
-func (w *world) attData(i int, inv string) *phase0.AttestationData {
-	v := w.c.Pool[i]
+// rootValue is the block root pool value i stands for when delivered in answer
+// to request k (block root strategies).
+func rootValue(i, k int) phase0.Root {
+	r := headRoot(i)
+	r[1] = byte(k)
+	return r
+}
+
+func (w *world) attData(i int, inv string, k int) *phase0.AttestationData {
+	c := w.c
+	v := c.Pool[i]
+	epoch := c.epoch()
+	source := epoch - v.A
+	if source < 0 {
+		source = 0
+	}
 	d := &phase0.AttestationData{
-		Slot:            dutySlot,
+		Slot:            phase0.Slot(c.slot(k)),
 		Index:           committeeIndex,
 		BeaconBlockRoot: headRoot(i),
-		Source:          &phase0.Checkpoint{Epoch: phase0.Epoch(dutyEpoch - v.A), Root: tagRoot(0x55, 0x01)},
-		Target:          &phase0.Checkpoint{Epoch: dutyEpoch, Root: tagRoot(byte(i+1), 0x02)},
+		Source:          &phase0.Checkpoint{Epoch: phase0.Epoch(source), Root: tagRoot(0x55, 0x01)},
+		Target:          &phase0.Checkpoint{Epoch: phase0.Epoch(epoch), Root: tagRoot(byte(i+1), 0x02)},
+	}
+	d.Target.Root[2] = byte(k)
+	if epoch < 10 {
+		// no earlier epochs at genesis: the variants that look back look ahead
+		switch inv {
+		case "target-1":
+			inv = "target+1"
+		case "stale-epoch", "stale-far":
+			inv = "ahead-epoch"
+		}
 	}
 	switch inv {
 	case "":
 	case "target+1":
-		d.Target.Epoch = dutyEpoch + 1
+		d.Target.Epoch = phase0.Epoch(epoch + 1)
 		d.Target.Root[1] = invalidMarker
 	case "target-1":
-		d.Target.Epoch = dutyEpoch - 1
+		d.Target.Epoch = phase0.Epoch(epoch - 1)
 		d.Target.Root[1] = invalidMarker
 	case "target-far":
-		d.Target.Epoch = dutyEpoch + 100000
+		d.Target.Epoch = phase0.Epoch(epoch + 100000)
 		d.Target.Root[1] = invalidMarker
 	case "stale-epoch":
 		// a node that is behind: self-consistent data for a slot of the
 		// previous epoch (target epoch = that slot's epoch, not the requested one's)
-		d.Slot = dutySlot - slotsPerEpoch
+		d.Slot -= slotsPerEpoch
 		d.Source.Epoch--
-		d.Target.Epoch = dutyEpoch - 1
+		d.Target.Epoch = phase0.Epoch(epoch - 1)
 		d.Target.Root[1] = invalidMarker
 	case "stale-far":
-		d.Slot = dutySlot - 10*slotsPerEpoch - 3
+		d.Slot -= 10*slotsPerEpoch + 3
 		d.Source.Epoch -= 10
-		d.Target.Epoch = dutyEpoch - 10
+		d.Target.Epoch = phase0.Epoch(epoch - 10)
 		d.Target.Root[1] = invalidMarker
 	case "ahead-epoch":
-		d.Slot = dutySlot + slotsPerEpoch
-		d.Target.Epoch = dutyEpoch + 1
+		d.Slot += slotsPerEpoch
+		d.Target.Epoch = phase0.Epoch(epoch + 1)
 		d.Target.Root[1] = invalidMarker
 	case "nil-target":
 		d.Target = nil
@@ -201,29 +259,36 @@ func bitlist(total, set int64) bitfield.Bitlist {
 	return b
 }
 
-func (w *world) aggregate(i int) *phase0.Attestation {
+func (w *world) aggregate(i, k int) *phase0.Attestation {
 	v := w.c.Pool[i]
+	epoch := w.c.epoch()
+	source := epoch - 1
+	if source < 0 {
+		source = 0
+	}
 	a := &phase0.Attestation{
 		AggregationBits: bitlist(v.A, v.B),
-		Data: &phase0.AttestationData{Slot: dutySlot, Index: committeeIndex,
-			Source: &phase0.Checkpoint{Epoch: dutyEpoch - 1}, Target: &phase0.Checkpoint{Epoch: dutyEpoch}},
+		Data: &phase0.AttestationData{Slot: phase0.Slot(w.c.slot(k)), Index: committeeIndex,
+			Source: &phase0.Checkpoint{Epoch: phase0.Epoch(source)}, Target: &phase0.Checkpoint{Epoch: phase0.Epoch(epoch)}},
 	}
 	a.Signature[0] = byte(i + 1)
+	a.Signature[1] = byte(k)
 	return a
 }
 
-func (w *world) contribution(i int) *altair.SyncCommitteeContribution {
+func (w *world) contribution(i, k int) *altair.SyncCommitteeContribution {
 	v := w.c.Pool[i]
 	c := &altair.SyncCommitteeContribution{
-		Slot:              dutySlot,
+		Slot:              phase0.Slot(w.c.slot(k)),
 		BeaconBlockRoot:   tagRoot(0x77, 0x03),
 		SubcommitteeIndex: 2,
 		AggregationBits:   bitfield.NewBitvector128(),
 	}
-	for k := int64(0); k < v.A; k++ {
-		c.AggregationBits.SetBitAt(uint64((k*5)%128), true)
+	for j := int64(0); j < v.A; j++ {
+		c.AggregationBits.SetBitAt(uint64((j*5)%128), true)
 	}
 	c.Signature[0] = byte(i + 1)
+	c.Signature[1] = byte(k)
 	return c
 }
 
@@ -234,10 +299,12 @@ const (
 	verDeneb     = 4
 )
 
-// proposal builds the block proposal for pool value i.  inv: "" | zero-fee |
-// no-block (payload missing, so that the fee recipient cannot be obtained).
-func (w *world) proposal(i int, inv string) *api.VersionedProposal {
+// proposal builds the block proposal for pool value i in answer to request k.
+// inv: "" | zero-fee | no-block (payload missing, so that the fee recipient
+// cannot be obtained).
+func (w *world) proposal(i int, inv string, k int) *api.VersionedProposal {
 	v := w.c.Pool[i]
+	slot := phase0.Slot(w.c.slot(k))
 	ver := v.A
 	if inv != "" && ver < verBellatrix {
 		ver = verBellatrix
@@ -261,17 +328,17 @@ func (w *world) proposal(i int, inv string) *api.VersionedProposal {
 	switch ver {
 	case verAltair:
 		p.Version = spec.DataVersionAltair
-		p.Altair = &altair.BeaconBlock{Slot: dutySlot, ProposerIndex: tag, Body: &altair.BeaconBlockBody{}}
+		p.Altair = &altair.BeaconBlock{Slot: slot, ProposerIndex: tag, Body: &altair.BeaconBlockBody{}}
 	case verBellatrix:
 		p.Version = spec.DataVersionBellatrix
 		if inv == "no-block" {
 			break
 		}
 		if blinded {
-			p.BellatrixBlinded = &apiv1bellatrix.BlindedBeaconBlock{Slot: dutySlot, ProposerIndex: tag,
+			p.BellatrixBlinded = &apiv1bellatrix.BlindedBeaconBlock{Slot: slot, ProposerIndex: tag,
 				Body: &apiv1bellatrix.BlindedBeaconBlockBody{ExecutionPayloadHeader: &bellatrix.ExecutionPayloadHeader{FeeRecipient: fee}}}
 		} else {
-			p.Bellatrix = &bellatrix.BeaconBlock{Slot: dutySlot, ProposerIndex: tag,
+			p.Bellatrix = &bellatrix.BeaconBlock{Slot: slot, ProposerIndex: tag,
 				Body: &bellatrix.BeaconBlockBody{ExecutionPayload: &bellatrix.ExecutionPayload{FeeRecipient: fee}}}
 		}
 	case verCapella:
@@ -280,10 +347,10 @@ func (w *world) proposal(i int, inv string) *api.VersionedProposal {
 			break
 		}
 		if blinded {
-			p.CapellaBlinded = &apiv1capella.BlindedBeaconBlock{Slot: dutySlot, ProposerIndex: tag,
+			p.CapellaBlinded = &apiv1capella.BlindedBeaconBlock{Slot: slot, ProposerIndex: tag,
 				Body: &apiv1capella.BlindedBeaconBlockBody{ExecutionPayloadHeader: &capella.ExecutionPayloadHeader{FeeRecipient: fee}}}
 		} else {
-			p.Capella = &capella.BeaconBlock{Slot: dutySlot, ProposerIndex: tag,
+			p.Capella = &capella.BeaconBlock{Slot: slot, ProposerIndex: tag,
 				Body: &capella.BeaconBlockBody{ExecutionPayload: &capella.ExecutionPayload{FeeRecipient: fee}}}
 		}
 	default:
@@ -292,127 +359,133 @@ func (w *world) proposal(i int, inv string) *api.VersionedProposal {
 			break
 		}
 		if blinded {
-			p.DenebBlinded = &apiv1deneb.BlindedBeaconBlock{Slot: dutySlot, ProposerIndex: tag,
+			p.DenebBlinded = &apiv1deneb.BlindedBeaconBlock{Slot: slot, ProposerIndex: tag,
 				Body: &apiv1deneb.BlindedBeaconBlockBody{ExecutionPayloadHeader: &deneb.ExecutionPayloadHeader{FeeRecipient: fee}}}
 		} else {
-			p.Deneb = &apiv1deneb.BlockContents{Block: &deneb.BeaconBlock{Slot: dutySlot, ProposerIndex: tag,
+			p.Deneb = &apiv1deneb.BlockContents{Block: &deneb.BeaconBlock{Slot: slot, ProposerIndex: tag,
 				Body: &deneb.BeaconBlockBody{ExecutionPayload: &deneb.ExecutionPayload{FeeRecipient: fee}}}}
 		}
 	}
 	return p
 }
 
-func (w *world) header(i int) *apiv1.BeaconBlockHeader {
-	return &apiv1.BeaconBlockHeader{Root: headRoot(i), Canonical: true,
-		Header: &phase0.SignedBeaconBlockHeader{Message: &phase0.BeaconBlockHeader{Slot: dutySlot, ProposerIndex: phase0.ValidatorIndex(i + 1)}}}
+func (w *world) header(i, k int) *apiv1.BeaconBlockHeader {
+	return &apiv1.BeaconBlockHeader{Root: rootValue(i, k), Canonical: true,
+		Header: &phase0.SignedBeaconBlockHeader{Message: &phase0.BeaconBlockHeader{Slot: phase0.Slot(w.c.slot(k)), ProposerIndex: phase0.ValidatorIndex(i + 1)}}}
 }
 
-func (w *world) signedBlock(i int) *spec.VersionedSignedBeaconBlock {
+func (w *world) signedBlock(i, k int) *spec.VersionedSignedBeaconBlock {
 	return &spec.VersionedSignedBeaconBlock{Version: spec.DataVersionPhase0,
-		Phase0: &phase0.SignedBeaconBlock{Message: &phase0.BeaconBlock{Slot: dutySlot, ProposerIndex: phase0.ValidatorIndex(i + 1), Body: &phase0.BeaconBlockBody{}}}}
+		Phase0: &phase0.SignedBeaconBlock{Message: &phase0.BeaconBlock{Slot: phase0.Slot(w.c.slot(k)), ProposerIndex: phase0.ValidatorIndex(i + 1), Body: &phase0.BeaconBlockBody{}}}}
 }
 
 // ---------------------------------------------------------------------------
-// Identification of a returned value: which pool value is it, and does it pass
-// the validity rule of the property statement?  Written against the content of
-// the returned object only.
+// Identification of a returned value: which pool value is it, which request
+// of the history was it an answer to, and does it pass the validity rule of
+// the property statement?  Written against the content of the returned object
+// only.
 
 type ident struct {
 	Nil     bool   // no data although no error
 	Tag     int    // pool index, or -1
+	Call    int    // index of the request the value was delivered for, or -1
 	Invalid string // non-empty: the validity rule of the statement it fails
 }
 
-func identAtt(d *phase0.AttestationData) ident {
+func (c *Case) identAtt(d *phase0.AttestationData) ident {
 	if d == nil {
-		return ident{Nil: true, Tag: -1}
+		return ident{Nil: true, Tag: -1, Call: -1}
 	}
 	if d.Target == nil {
-		return ident{Tag: -1, Invalid: "missing-target"}
+		return ident{Tag: -1, Call: -1, Invalid: "missing-target"}
 	}
-	id := ident{Tag: int(d.Target.Root[0]) - 1}
-	// the slot of the statement is the requested (duty) slot
-	if uint64(d.Target.Epoch) != dutySlot/slotsPerEpoch {
+	id := ident{Tag: int(d.Target.Root[0]) - 1, Call: int(d.Target.Root[2])}
+	// the slot of the statement is the requested (duty) slot; all requests of a
+	// history are in one epoch
+	if int64(d.Target.Epoch) != c.epoch() {
 		id.Invalid = "target-epoch-not-slot-epoch"
+	} else if int64(d.Slot) != c.slot(id.Call) {
+		id.Call = -1
 	}
 	return id
 }
 
-func identAgg(a *phase0.Attestation) ident {
+func (c *Case) identAgg(a *phase0.Attestation) ident {
 	if a == nil {
-		return ident{Nil: true, Tag: -1}
+		return ident{Nil: true, Tag: -1, Call: -1}
 	}
-	return ident{Tag: int(a.Signature[0]) - 1}
+	return ident{Tag: int(a.Signature[0]) - 1, Call: int(a.Signature[1])}
 }
 
-func identContribution(c *altair.SyncCommitteeContribution) ident {
-	if c == nil {
-		return ident{Nil: true, Tag: -1}
+func (c *Case) identContribution(sc *altair.SyncCommitteeContribution) ident {
+	if sc == nil {
+		return ident{Nil: true, Tag: -1, Call: -1}
 	}
-	return ident{Tag: int(c.Signature[0]) - 1}
+	return ident{Tag: int(sc.Signature[0]) - 1, Call: int(sc.Signature[1])}
 }
 
-func identRoot(r *phase0.Root) ident {
+func (c *Case) identRoot(r *phase0.Root) ident {
 	if r == nil {
-		return ident{Nil: true, Tag: -1}
+		return ident{Nil: true, Tag: -1, Call: -1}
 	}
-	return ident{Tag: int(r[0]) - 1}
+	return ident{Tag: int(r[0]) - 1, Call: int(r[1])}
 }
 
-func identHeader(h *apiv1.BeaconBlockHeader) ident {
+func (c *Case) identHeader(h *apiv1.BeaconBlockHeader) ident {
 	if h == nil {
-		return ident{Nil: true, Tag: -1}
+		return ident{Nil: true, Tag: -1, Call: -1}
 	}
-	return ident{Tag: int(h.Root[0]) - 1}
+	return ident{Tag: int(h.Root[0]) - 1, Call: int(h.Root[1])}
 }
 
-func identBlock(b *spec.VersionedSignedBeaconBlock) ident {
+func (c *Case) identBlock(b *spec.VersionedSignedBeaconBlock) ident {
 	if b == nil || b.Phase0 == nil || b.Phase0.Message == nil {
-		return ident{Nil: true, Tag: -1}
+		return ident{Nil: true, Tag: -1, Call: -1}
 	}
-	return ident{Tag: int(b.Phase0.Message.ProposerIndex) - 1}
+	return ident{Tag: int(b.Phase0.Message.ProposerIndex) - 1, Call: c.callOfSlot(b.Phase0.Message.Slot)}
 }
 
 // identProposal applies the statement's rule "proposals with a zero fee
 // recipient / missing data are never returned" to a returned proposal.
-func identProposal(p *api.VersionedProposal) ident {
+func (c *Case) identProposal(p *api.VersionedProposal) ident {
 	if p == nil {
-		return ident{Nil: true, Tag: -1}
+		return ident{Nil: true, Tag: -1, Call: -1}
 	}
 	var fee *bellatrix.ExecutionAddress
 	var idx phase0.ValidatorIndex
+	var slot phase0.Slot
 	missing := false
 	switch p.Version {
 	case spec.DataVersionAltair:
 		if p.Altair == nil {
 			missing = true
 		} else {
-			idx = p.Altair.ProposerIndex
+			idx, slot = p.Altair.ProposerIndex, p.Altair.Slot
 		}
 	case spec.DataVersionBellatrix:
 		switch {
 		case p.Blinded && p.BellatrixBlinded != nil:
-			idx, fee = p.BellatrixBlinded.ProposerIndex, &p.BellatrixBlinded.Body.ExecutionPayloadHeader.FeeRecipient
+			idx, slot, fee = p.BellatrixBlinded.ProposerIndex, p.BellatrixBlinded.Slot, &p.BellatrixBlinded.Body.ExecutionPayloadHeader.FeeRecipient
 		case !p.Blinded && p.Bellatrix != nil:
-			idx, fee = p.Bellatrix.ProposerIndex, &p.Bellatrix.Body.ExecutionPayload.FeeRecipient
+			idx, slot, fee = p.Bellatrix.ProposerIndex, p.Bellatrix.Slot, &p.Bellatrix.Body.ExecutionPayload.FeeRecipient
 		default:
 			missing = true
 		}
 	case spec.DataVersionCapella:
 		switch {
 		case p.Blinded && p.CapellaBlinded != nil:
-			idx, fee = p.CapellaBlinded.ProposerIndex, &p.CapellaBlinded.Body.ExecutionPayloadHeader.FeeRecipient
+			idx, slot, fee = p.CapellaBlinded.ProposerIndex, p.CapellaBlinded.Slot, &p.CapellaBlinded.Body.ExecutionPayloadHeader.FeeRecipient
 		case !p.Blinded && p.Capella != nil:
-			idx, fee = p.Capella.ProposerIndex, &p.Capella.Body.ExecutionPayload.FeeRecipient
+			idx, slot, fee = p.Capella.ProposerIndex, p.Capella.Slot, &p.Capella.Body.ExecutionPayload.FeeRecipient
 		default:
 			missing = true
 		}
 	case spec.DataVersionDeneb:
 		switch {
 		case p.Blinded && p.DenebBlinded != nil:
-			idx, fee = p.DenebBlinded.ProposerIndex, &p.DenebBlinded.Body.ExecutionPayloadHeader.FeeRecipient
+			idx, slot, fee = p.DenebBlinded.ProposerIndex, p.DenebBlinded.Slot, &p.DenebBlinded.Body.ExecutionPayloadHeader.FeeRecipient
 		case !p.Blinded && p.Deneb != nil && p.Deneb.Block != nil:
-			idx, fee = p.Deneb.Block.ProposerIndex, &p.Deneb.Block.Body.ExecutionPayload.FeeRecipient
+			idx, slot, fee = p.Deneb.Block.ProposerIndex, p.Deneb.Block.Slot, &p.Deneb.Block.Body.ExecutionPayload.FeeRecipient
 		default:
 			missing = true
 		}
@@ -420,9 +493,9 @@ func identProposal(p *api.VersionedProposal) ident {
 		missing = true
 	}
 	if missing {
-		return ident{Tag: -1, Invalid: "missing-block"}
+		return ident{Tag: -1, Call: -1, Invalid: "missing-block"}
 	}
-	id := ident{Tag: int(idx) - 1}
+	id := ident{Tag: int(idx) - 1, Call: c.callOfSlot(slot)}
 	if fee != nil && *fee == (bellatrix.ExecutionAddress{}) {
 		id.Invalid = "zero-fee-recipient"
 		id.Tag = -1
@@ -435,99 +508,106 @@ func identProposal(p *api.VersionedProposal) ident {
 
 type attNode struct{ node }
 
-func (d *attNode) AttestationData(ctx context.Context, _ *api.AttestationDataOpts) (*api.Response[*phase0.AttestationData], error) {
-	if err := d.wait(ctx); err != nil {
+func (d *attNode) AttestationData(ctx context.Context, opts *api.AttestationDataOpts) (*api.Response[*phase0.AttestationData], error) {
+	k := d.w.c.callOfSlot(opts.Slot)
+	if err := d.wait(ctx, k); err != nil {
 		return nil, err
 	}
-	n := d.spec()
+	n := d.spec(k)
 	var data *phase0.AttestationData
 	if !(n.Kind == "invalid" && n.Inv == "nil-data") {
 		inv := ""
 		if n.Kind == "invalid" {
 			inv = n.Inv
 		}
-		data = d.w.attData(n.Val, inv)
+		data = d.w.attData(n.Val, inv, k)
 	}
-	d.deliver()
+	d.deliver(k)
 	return &api.Response[*phase0.AttestationData]{Data: data, Metadata: map[string]any{}}, nil
 }
 
 type aggNode struct{ node }
 
-func (d *aggNode) AggregateAttestation(ctx context.Context, _ *api.AggregateAttestationOpts) (*api.Response[*phase0.Attestation], error) {
-	if err := d.wait(ctx); err != nil {
+func (d *aggNode) AggregateAttestation(ctx context.Context, opts *api.AggregateAttestationOpts) (*api.Response[*phase0.Attestation], error) {
+	k := d.w.c.callOfSlot(opts.Slot)
+	if err := d.wait(ctx, k); err != nil {
 		return nil, err
 	}
-	n := d.spec()
+	n := d.spec(k)
 	var data *phase0.Attestation
 	if n.Kind != "invalid" {
-		data = d.w.aggregate(n.Val)
+		data = d.w.aggregate(n.Val, k)
 	}
-	d.deliver()
+	d.deliver(k)
 	return &api.Response[*phase0.Attestation]{Data: data, Metadata: map[string]any{}}, nil
 }
 
 type syncNode struct{ node }
 
-func (d *syncNode) SyncCommitteeContribution(ctx context.Context, _ *api.SyncCommitteeContributionOpts) (*api.Response[*altair.SyncCommitteeContribution], error) {
-	if err := d.wait(ctx); err != nil {
+func (d *syncNode) SyncCommitteeContribution(ctx context.Context, opts *api.SyncCommitteeContributionOpts) (*api.Response[*altair.SyncCommitteeContribution], error) {
+	k := d.w.c.callOfSlot(opts.Slot)
+	if err := d.wait(ctx, k); err != nil {
 		return nil, err
 	}
-	n := d.spec()
+	n := d.spec(k)
 	var data *altair.SyncCommitteeContribution
 	if n.Kind != "invalid" {
-		data = d.w.contribution(n.Val)
+		data = d.w.contribution(n.Val, k)
 	}
-	d.deliver()
+	d.deliver(k)
 	return &api.Response[*altair.SyncCommitteeContribution]{Data: data, Metadata: map[string]any{}}, nil
 }
 
 type propNode struct{ node }
 
-func (d *propNode) Proposal(ctx context.Context, _ *api.ProposalOpts) (*api.Response[*api.VersionedProposal], error) {
-	if err := d.wait(ctx); err != nil {
+func (d *propNode) Proposal(ctx context.Context, opts *api.ProposalOpts) (*api.Response[*api.VersionedProposal], error) {
+	k := d.w.c.callOfSlot(opts.Slot)
+	if err := d.wait(ctx, k); err != nil {
 		return nil, err
 	}
-	n := d.spec()
+	n := d.spec(k)
 	inv := ""
 	if n.Kind == "invalid" {
 		inv = n.Inv
 	}
-	data := d.w.proposal(n.Val, inv)
-	d.deliver()
+	data := d.w.proposal(n.Val, inv, k)
+	d.deliver(k)
 	return &api.Response[*api.VersionedProposal]{Data: data, Metadata: map[string]any{}}, nil
 }
 
 type rootNode struct{ node }
 
-func (d *rootNode) BeaconBlockRoot(ctx context.Context, _ *api.BeaconBlockRootOpts) (*api.Response[*phase0.Root], error) {
-	if err := d.wait(ctx); err != nil {
+func (d *rootNode) BeaconBlockRoot(ctx context.Context, opts *api.BeaconBlockRootOpts) (*api.Response[*phase0.Root], error) {
+	k := d.w.c.callOfBlock(opts.Block)
+	if err := d.wait(ctx, k); err != nil {
 		return nil, err
 	}
-	r := headRoot(d.spec().Val)
-	d.deliver()
+	r := rootValue(d.spec(k).Val, k)
+	d.deliver(k)
 	return &api.Response[*phase0.Root]{Data: &r, Metadata: map[string]any{}}, nil
 }
 
 type headerNode struct{ node }
 
-func (d *headerNode) BeaconBlockHeader(ctx context.Context, _ *api.BeaconBlockHeaderOpts) (*api.Response[*apiv1.BeaconBlockHeader], error) {
-	if err := d.wait(ctx); err != nil {
+func (d *headerNode) BeaconBlockHeader(ctx context.Context, opts *api.BeaconBlockHeaderOpts) (*api.Response[*apiv1.BeaconBlockHeader], error) {
+	k := d.w.c.callOfBlock(opts.Block)
+	if err := d.wait(ctx, k); err != nil {
 		return nil, err
 	}
-	h := d.w.header(d.spec().Val)
-	d.deliver()
+	h := d.w.header(d.spec(k).Val, k)
+	d.deliver(k)
 	return &api.Response[*apiv1.BeaconBlockHeader]{Data: h, Metadata: map[string]any{}}, nil
 }
 
 type blockNode struct{ node }
 
-func (d *blockNode) SignedBeaconBlock(ctx context.Context, _ *api.SignedBeaconBlockOpts) (*api.Response[*spec.VersionedSignedBeaconBlock], error) {
-	if err := d.wait(ctx); err != nil {
+func (d *blockNode) SignedBeaconBlock(ctx context.Context, opts *api.SignedBeaconBlockOpts) (*api.Response[*spec.VersionedSignedBeaconBlock], error) {
+	k := d.w.c.callOfBlock(opts.Block)
+	if err := d.wait(ctx, k); err != nil {
 		return nil, err
 	}
-	b := d.w.signedBlock(d.spec().Val)
-	d.deliver()
+	b := d.w.signedBlock(d.spec(k).Val, k)
+	d.deliver(k)
 	return &api.Response[*spec.VersionedSignedBeaconBlock]{Data: b, Metadata: map[string]any{}}, nil
 }
 
@@ -546,7 +626,7 @@ func (cd *cacheDouble) BlockRootToSlot(_ context.Context, root phase0.Root) (pha
 	if dist < 0 {
 		return 0, errors.New("scripted cache miss")
 	}
-	return phase0.Slot(dutySlot - dist), nil
+	return phase0.Slot(cd.c.slot(0) - dist), nil
 }
 
 // Doubles needed only to construct beaconblockproposal/best.
